@@ -5,8 +5,7 @@ from loadlib import *
 
 ID = "C03"
 GEN = ["Candidates"]
-THEOREMS = ["C03_once_per_key", "C03_once_per_file_when_keys_canonical", "C03_cache_hit_not_executed",
-            "C03_refuted_spelling", "C03_statement_refuted"]
+THEOREMS = ["C03_once_per_key", "C03_once_per_file", "C03_once_every_world", "C03_cache_hit_not_executed"]
 COQ_HEADER = ("From Coq Require Import String List ZArith NArith.\nFrom RV Require Import Gen.Candidates Model.Load Model.LoadRun Run.C03.\n"
               "Import ListNotations.\nLocal Open Scope string_scope.")
 RUN_EXPR = "Run.C03.run_any"
@@ -24,10 +23,10 @@ SPELL = ["{}", "./{}", "d/../{}", ".//{}", "{}"]
 SPELL_M = ["m/{}", "./m/{}", "m/../m/{}", "m//{}", "m/{}"]
 
 
-def build(n, edges, mode, indir=()):
-    """edges: (src, dst, kind, spelling index); files in `indir` live in m/"""
+def build(n, edges, mode, indir=(), partial=()):
+    """edges: (src, dst, kind, spelling index); files in `indir` live in m/; files in `partial` are `_x.scss`"""
     letters = ["t", "a", "b", "c"][:n]
-    names = [("m/" if i in indir else "") + letters[i] + ".scss" for i in range(n)]
+    names = [("m/" if i in indir else "") + ("_" if i in partial and i > 0 else "") + letters[i] + ".scss" for i in range(n)]
     bodies = [[["emit", i]] for i in range(n)]
     for (s, d, k, sp) in edges:
         if s in indir:
@@ -80,7 +79,8 @@ def gen_cases(ctx, tier):
         if mode is None:
             r = rng.random()
             mode = "fs" if r < 0.15 else ("mem" if canonical(edges, indir) and r < 0.5 else "norm")
-        cases.append(build(n, edges, mode, indir))
+        partial = tuple(i for i in range(1, n) if rng.random() < 0.25)
+        cases.append(build(n, edges, mode, indir, partial))
 
     # corpus: F7 witness and neighbours
     add(2, [(0, 1, "use", 0), (0, 1, "use", 1)], indir=(1,), mode="norm")          # @use "m/a"; @use "./m/a"
@@ -173,7 +173,7 @@ def judge(c, io, r):
         "corr": corr == 1,
         "clauses": [("once", c1 == 1, KCLASS[k]), ("output", c2 == 1, KCLASS[k])],
         "nontrivial": any(v >= 2 for v in targets.values()),
-        "tags": [c["mode"], f"ref{refcls}", "spelled" if k else "canonical", f"impl{d['cls']}"],
+        "tags": [c["mode"], f"ref{refcls}", "spelled" if any(x[0] == "load" and ("./" in x[2] or "//" in x[2] or "../" in x[2]) for _, b in c["world"] for x in b) else "canonical", f"impl{d['cls']}"],
         "show": f"{c['mode']} " + " | ".join(f"{n}: " + scss_of(n, b).replace(chr(10), ' ') for n, b in c["world"]) + f" -> class {d['cls']} {d['markers']}",
         "detail": {"files": {n: scss_of(n, b) for n, b in c["world"]}, "impl": d},
     }
@@ -190,11 +190,11 @@ def shrink(c):
                 yield dict(c, world=w)
 
 
-LEVEL_TEXT = ("proof: for every loader and every @use/@forward-only file set, no cache key (textual path) is executed twice "
-              "(invariant: an executed key is in the module cache or on the lock set), hence no FILE is executed twice whenever "
-              "the executed keys are canonical (distinct keys denote distinct files); a cache hit executes nothing; the full "
-              "statement is refuted with the spelling witness (`@use \"m/lib\"` + `@use \"./m/lib\"`); tied to the code by exact "
-              "loader-call-log and css correspondence over generated graphs")
-LEVEL_NOTE = ("trusted: Coq kernel+vm_compute, the harness, Spec/LoadRef.v; F7 is a known-finding class; the module-variable clause "
-              "is not modelled (partial)")
+LEVEL_TEXT = ("proof, full strength for the execution-count clauses since fix d80c9be: for every loader and every "
+              "@use/@forward-only file set no cache key is executed twice (invariant: an executed key is in the module cache or "
+              "on the lock set); every key is a normalized name, so no FILE is executed twice provided the loader does not hand "
+              "out one file under two normalized names; unconditional instance for every in-memory world (any graph, any "
+              "spelling); a cache hit executes nothing; tied to the code by exact loader-call-log and css correspondence")
+LEVEL_NOTE = ("trusted: Coq kernel+vm_compute, the harness, Spec/LoadRef.v; F7 is fixed in /repo (d80c9be); the module-variable "
+              "clause is checked on the implementation only (F8 remains a known finding, no model: partial)")
 TECHNIQUE = "Coq proof (invariant by induction on fuel and bodies) + differential correspondence against a reference interpreter"
